@@ -393,7 +393,7 @@ def minimise(rp, cls):
     if len(cur["plan"].get("signals", [])) > 1:
         cand = json.loads(json.dumps(cur))
         cand["plan"]["signals"] = cand["plan"]["signals"][:1]
-        if cls in classes_of(cand):
+        if core.budget_ok() and cls in classes_of(cand):
             cur = cand
     ch = cur["plan"].get("choices") or []
     lo, hi = 0, len(ch)
@@ -402,13 +402,13 @@ def minimise(rp, cls):
         cand = json.loads(json.dumps(cur))
         cand["plan"]["choices"] = ch[:mid]
         runs += 1
-        if cls in classes_of(cand):
+        if core.budget_ok() and cls in classes_of(cand):
             hi = mid
         else:
             lo = mid + 1
     cand = json.loads(json.dumps(cur))
     cand["plan"]["choices"] = ch[:hi]
-    if cls in classes_of(cand):
+    if core.budget_ok() and cls in classes_of(cand):
         cur = cand
     i = 0
     while len(cur["scenario"]["files"]) > 1 and i < len(cur["scenario"]["files"]) and runs < 60:
@@ -416,7 +416,7 @@ def minimise(rp, cls):
         f = cand["scenario"]["files"].pop(i)
         cand["scenario"]["argv"] = [a for a in cand["scenario"]["argv"] if a != f["path"]]
         runs += 1
-        if cls in classes_of(cand):
+        if core.budget_ok() and cls in classes_of(cand):
             cur = cand
         else:
             i += 1
